@@ -102,7 +102,7 @@ func propSpecs() map[string]*PropSpec {
 			Own:     func(o *Obligation) bool { return strings.Contains(o.Name, "C12:") },
 			Decided: []string{"D1 AddOption: unknown name / illegal value / duplicate => exactly one (at least one for illegal) new diagnostic carrying the declaration's line, accepted options stored without diagnostic", "D2 AddPacket: duplicate name, second root => one diagnostic with the packet's line and the model unchanged; otherwise stored in map and list, no diagnostic", "D3 AddMetaData: duplicate => one diagnostic with its line; otherwise stored", "D8 Compile: a parse error or any model diagnostic => non-nil error, no file-system effect, WriteCodeToFile never called",
 				"D4 length fields occur only in the root packet and only as its length field (VisitPacketDefinition)", "D5 a match key seen earlier in the same match yields a diagnostic (VisitMatchFieldDeclaration)",
-				"D6 resolveFields / ResolveDependencies: unless a new diagnostic was added, every object field of every packet refers to a declared packet and every match alternative names a declared packet (top-level fields; set-once history constraint on the reference)",
+				"D6 resolveFields / ResolveDependencies: unless a new diagnostic was added, every object field of every packet refers to a declared packet and every match alternative names a declared packet (top-level fields; set-once history constraint on the reference); carried by contract through VisitPacket and ParseFile to Compile: a nil result means every generator was handed a model whose top-level references are all resolved",
 				"D7 a packet's fields have pairwise distinct names (VisitPacketDefinition)", "line provenance: every diagnostic added by the visitor carries a line >= 1 taken from a token of the offending declaration; the membership test behind illegal option values is exact (contains)"},
 			OutOfReach: []string{"text of ANTLR's own syntax messages", "that each remaining fault class (duplicate packet / MetaData entry / option at visitor level, references nested in inline objects) yields a diagnostic for all inputs: covered by the fault corpus only", "acyclicity of references (containsCycle) is not under contract"}},
 		"C16": {ID: "C16", Kinds: []string{"POST", "PRE", "SAFE"}, FuncMatch: regexp.MustCompile(`cmd\.|parser\.(FormatPacketDsl|WriteCodeToFile)$`),
